@@ -192,6 +192,9 @@ def install(ctx):
             return Leaf('mpsc.send', (s, args[1]))
         if isinstance(s, OneshotTx):
             p = ip.path
+            if getattr(p, 'receiver_dropped', False):
+                p.effect('oneshot.send-failed', s.cid)
+                return err(args[1])
             replies = getattr(p, 'sent', {})
             replies[s.cid] = args[1]
             p.sent = replies
